@@ -25,7 +25,7 @@ def trivial(c):
 def gen(rng, tier):
     out = []
     nrand = 40 if tier == "quick" else 2500
-    shapes = [((nx,), ny) for nx in (2, 3, 4) for ny in (2, 3)] + [((2, 3), 2), ((3, 2), 3), ((2, 2), 3), ((2, 2), 2)]
+    shapes = [((nx,), ny) for nx in (2, 3, 4) for ny in (2, 3)] + [((5,), 2), ((2,), 5)] + [((2, 3), 2), ((3, 2), 3), ((2, 2), 3), ((2, 2), 2)]
     for ty in ("f64", "f32"):
         for xs, ny in shapes:
             nx = 1
